@@ -65,7 +65,7 @@ def _all_names(fn):
   return out
 
 
-def enumerate_rewrites(fn):
+def enumerate_rewrites(fn, logger_name='_LOG'):
   out = []
   if fn.name in ('__str__', '__repr__'):
     return out
@@ -91,13 +91,33 @@ def enumerate_rewrites(fn):
       out.append(('with-split@%d' % n.lineno, ('withsplit', i)))
     if isinstance(n, ast.AugAssign) and isinstance(n.target, ast.Name):
       out.append(('expand-augassign@%d' % n.lineno, ('aug', i)))
+    if isinstance(n, ast.Assign) and len(n.targets) == 1 and isinstance(
+        n.targets[0], ast.Name):
+      out.append(('annotate-assign@%d' % n.lineno, ('annotate', i)))
+    if isinstance(n, ast.UnaryOp) and isinstance(n.op, ast.Not) and isinstance(
+        n.operand, ast.BoolOp):
+      out.append(('de-morgan@%d' % n.lineno, ('demorgan', i)))
+    if isinstance(n, ast.Compare) and len(n.ops) == 1 and isinstance(
+        n.ops[0], (ast.Lt, ast.Gt, ast.LtE, ast.GtE)):
+      out.append(('flip-ordering@%d' % n.lineno, ('flipcmp', i)))
+    if isinstance(n, ast.For) and len(n.body) == 1 and isinstance(
+        n.body[0], ast.If) and not n.body[0].orelse:
+      out.append(('continue-guard@%d' % n.lineno, ('contguard', i)))
+  last = fn.body[-1] if fn.body else None
+  if isinstance(last, ast.If) and not last.orelse and not any(
+      isinstance(x, (ast.Yield, ast.YieldFrom)) for x in ast.walk(fn)):
+    out.append(('guard-clause@%d' % last.lineno, ('guardclause',)))
+  if not (fn.body and isinstance(fn.body[0], ast.Expr) and isinstance(
+      fn.body[0].value, ast.Constant)):
+    out.append(('add-docstring', ('docstring',)))
   for bi, (owner, field, blk) in enumerate(mutants._blocks(fn)):  # pylint: disable=protected-access
     for k, s in enumerate(blk):
       if k == 0 and isinstance(s, ast.Expr) and isinstance(
           s.value, ast.Constant):
         continue
       out.append(('noop-before@%d' % s.lineno, ('noop', bi, k)))
-      out.append(('log-before@%d' % s.lineno, ('log', bi, k)))
+      if logger_name:
+        out.append(('log-before@%d' % s.lineno, ('log', bi, k, logger_name)))
     if not isinstance(blk[-1], (ast.Return, ast.Raise, ast.Continue,
                                 ast.Break)):
       out.append(('noop-at-end-of-block@%d' % blk[-1].lineno,
@@ -168,6 +188,36 @@ def apply_rewrite(fn, spec):
         value=ast.BinOp(left=ast.Name(id=n.target.id, ctx=ast.Load()),
                         op=n.op, right=n.value))
     mutants._replace_stmt(fn, n, [new])  # pylint: disable=protected-access
+  elif kind == 'annotate':
+    n = nodes[spec[1]]
+    new = ast.AnnAssign(target=n.targets[0],
+                        annotation=ast.Name(id='object', ctx=ast.Load()),
+                        value=n.value, simple=1)
+    mutants._replace_stmt(fn, n, [new])  # pylint: disable=protected-access
+  elif kind == 'demorgan':
+    n = nodes[spec[1]]
+    b = n.operand
+    new = ast.BoolOp(
+        op=ast.Or() if isinstance(b.op, ast.And) else ast.And(),
+        values=[ast.UnaryOp(op=ast.Not(), operand=v) for v in b.values])
+    mutants._replace(fn, n, new)  # pylint: disable=protected-access
+  elif kind == 'flipcmp':
+    n = nodes[spec[1]]
+    flip = {ast.Lt: ast.Gt, ast.Gt: ast.Lt, ast.LtE: ast.GtE, ast.GtE: ast.LtE}
+    n.left, n.comparators[0] = n.comparators[0], n.left
+    n.ops[0] = flip[type(n.ops[0])]()
+  elif kind == 'contguard':
+    n = nodes[spec[1]]
+    inner = n.body[0]
+    n.body = [ast.If(test=ast.UnaryOp(op=ast.Not(), operand=inner.test),
+                     body=[ast.Continue()], orelse=[])] + inner.body
+  elif kind == 'guardclause':
+    last = fn.body[-1]
+    fn.body[-1:] = [ast.If(test=ast.UnaryOp(op=ast.Not(), operand=last.test),
+                           body=[ast.Return(value=None)],
+                           orelse=[])] + last.body
+  elif kind == 'docstring':
+    fn.body.insert(0, ast.Expr(value=ast.Constant(value='Documented.')))
   elif kind in ('noop', 'log'):
     owner, field, blk = mutants._blocks(fn)[spec[1]]  # pylint: disable=protected-access
     if kind == 'noop':
@@ -176,7 +226,7 @@ def apply_rewrite(fn, spec):
                       value=ast.Constant(value=None))
     else:
       st = ast.Expr(value=ast.Call(
-          func=ast.Attribute(value=ast.Name(id='_LOG', ctx=ast.Load()),
+          func=ast.Attribute(value=ast.Name(id=spec[3], ctx=ast.Load()),
                              attr='debug', ctx=ast.Load()),
           args=[ast.Constant(value='checkpoint')], keywords=[]))
     blk.insert(spec[2], st)
@@ -224,7 +274,13 @@ def sweep(prop, jobs=None, limit=None, kinds=None):
     fn = mutants._func_node(tree, qual)  # pylint: disable=protected-access
     if fn is None:
       continue
-    for desc, spec in enumerate_rewrites(fn):
+    lg = None
+    for st in tree.body:
+      if isinstance(st, ast.Assign) and isinstance(st.value, ast.Call) and \
+          core.call_name(st.value) == 'logging.getLogger' and isinstance(
+              st.targets[0], ast.Name):
+        lg = st.targets[0].id
+    for desc, spec in enumerate_rewrites(fn, lg):
       if kinds and spec[0] not in kinds:
         continue
       tasks.append((prop, rel, qual, '%s::%s %s' % (rel.split('/')[-1], qual,
